@@ -312,6 +312,10 @@ fn task_running(
             assert_eq!(*w_id, worker_id);
             comm.ask_for_scheduling();
             task.state = TaskRuntimeState::Running { worker_id, rv_id };
+            // A retracting task that has no new target yet waits in the ready queue
+            task_queues
+                .get_mut(task.resource_rq_id)
+                .remove(task.id, task.priority());
             // We have to call first try_remove_redirection and then insert_sn_task
             // This cannot be done in reverse order because in rare cases
             // we may be in a process of a dummy redirection (from a worker to the same worker).
